@@ -1,124 +1,272 @@
-//! Replays a scenario against the real crate through its public API and prints what happened as JSON.
+//! Replays a scenario against the real crate through its public API and prints what happened as one JSON line.
 //!
 //! usage: verif_replay <scenario-file>
-//! scenario file (line based, so that no JSON parser is needed):
+//! scenario file (line based):
 //!   signal <in|out|bidir> <name> <bits> [default|Z]
-//!   driver <const N | echo | z | x | none>          (how outputs are produced; default const 0)
+//!   driver value <const N | idx | echo | z | x>     how output values are produced (default const 0)
+//!          idx: value = 100 * (position of the signal in the signal list + 1) + call number
+//!   driver layout <fwd | rev | none | only NAME..>  order / subset of the outputs in every answer (default fwd)
+//!   driver deviate <swap|drop|dup|dupfirst> <N>     from call N on (dupfirst: only in call N): change the layout
+//!   driver failat <N>                               call N returns an error
+//!   driver override_write                           the driver implements write_input itself (logged as W)
 //!   maxrows <n>
+//!   vars                                            report vars() after every row
+//!   expect ...                                      (ignored here; read by tools/scenarios.py)
 //!   program
 //!   <program text, verbatim, to the end of the file>
-use digital_test_runner::{InputEntry, InputValue, OutputEntry, OutputValue, ParsedTestCase, Signal, SignalType, TestDriver};
+use digital_test_runner::{
+    InputEntry, InputValue, OutputEntry, OutputValue, ParsedTestCase, Signal, SignalType, TestDriver,
+};
 use std::panic::{catch_unwind, AssertUnwindSafe};
 
 #[derive(Debug)]
-struct DrvErr;
+struct DrvErr(usize);
 impl std::fmt::Display for DrvErr {
-    fn fmt(&self, f: &mut std::fmt::Formatter<'_>) -> std::fmt::Result { write!(f, "drv") }
+    fn fmt(&self, f: &mut std::fmt::Formatter<'_>) -> std::fmt::Result {
+        write!(f, "drv{}", self.0)
+    }
 }
 impl std::error::Error for DrvErr {}
 
-struct Drv<'s> { signals: &'s [Signal], mode: String, calls: usize }
+#[derive(Clone, Default)]
+struct Cfg {
+    value: String,
+    layout: String,
+    deviate: Option<(String, usize)>,
+    failat: Option<usize>,
+    override_write: bool,
+}
+
+struct Drv<'s> {
+    signals: &'s [Signal],
+    cfg: Cfg,
+    calls: usize,
+    log: Vec<String>,
+}
+
+fn fmt_inputs(inputs: &[InputEntry<'_>]) -> String {
+    inputs
+        .iter()
+        .map(|i| format!("{}={}{}", i.signal.name, i.value, if i.changed { "*" } else { "" }))
+        .collect::<Vec<_>>()
+        .join(" ")
+}
+
+impl<'s> Drv<'s> {
+    fn answer(&mut self, inputs: &[InputEntry<'_>]) -> Vec<OutputEntry<'s>> {
+        let mut outs: Vec<(usize, &'s Signal)> =
+            self.signals.iter().enumerate().filter(|(_, s)| s.is_output()).collect();
+        let lw: Vec<&str> = self.cfg.layout.split_whitespace().collect();
+        match lw.first().copied().unwrap_or("fwd") {
+            "rev" => outs.reverse(),
+            "none" => outs.clear(),
+            "only" => outs.retain(|(_, s)| lw[1..].contains(&s.name.as_str())),
+            _ => {}
+        }
+        if let Some((kind, n)) = &self.cfg.deviate {
+            let active = if kind == "dupfirst" { self.calls == *n } else { self.calls >= *n };
+            if active && !outs.is_empty() {
+                match kind.as_str() {
+                    "swap" if outs.len() >= 2 => outs.swap(0, 1),
+                    "drop" => {
+                        outs.remove(0);
+                    }
+                    "dup" | "dupfirst" => {
+                        let f = outs[0];
+                        outs.insert(0, f);
+                    }
+                    _ => {}
+                }
+            }
+        }
+        let sum: i64 = inputs.iter().filter_map(|i| i.value.value()).fold(0i64, |a, b| a.wrapping_add(b));
+        outs.into_iter()
+            .map(|(pos, s)| {
+                let v = self.cfg.value.as_str();
+                let value = if v == "z" {
+                    OutputValue::Z
+                } else if v == "x" {
+                    OutputValue::X
+                } else if v == "echo" {
+                    OutputValue::Value(sum)
+                } else if v == "idx" {
+                    OutputValue::Value(100 * (pos as i64 + 1) + self.calls as i64)
+                } else {
+                    OutputValue::Value(v.strip_prefix("const ").and_then(|n| n.parse().ok()).unwrap_or(0))
+                };
+                OutputEntry { signal: s, value }
+            })
+            .collect()
+    }
+}
+
 impl<'s> TestDriver for Drv<'s> {
     type Error = DrvErr;
     fn write_input_and_read_output(&mut self, inputs: &[InputEntry<'_>]) -> Result<Vec<OutputEntry<'_>>, DrvErr> {
         self.calls += 1;
-        let mut out = vec![];
-        if self.mode == "none" { return Ok(out); }
-        if self.mode == "dupdrop" {
-            // first answer lists the first output twice; later answers list every output once
-            let outs: Vec<&Signal> = self.signals.iter().filter(|s| s.is_output()).collect();
-            if self.calls == 1 { if let Some(f) = outs.first() { out.push(OutputEntry { signal: f, value: OutputValue::Value(1) }); } }
-            for s in outs { out.push(OutputEntry { signal: s, value: OutputValue::Value(1) }); }
-            return Ok(out);
+        self.log.push(format!("R[{}]", fmt_inputs(inputs)));
+        if self.cfg.failat == Some(self.calls) {
+            return Err(DrvErr(self.calls));
         }
-        if self.mode.starts_with("fail ") {
-            let n: usize = self.mode[5..].parse().unwrap_or(1);
-            if self.calls == n { return Err(DrvErr); }
-        }
-        for s in self.signals {
-            if s.is_output() {
-                let value = if self.mode == "z" { OutputValue::Z } else if self.mode == "x" { OutputValue::X }
-                    else if self.mode == "echo" {
-                        let sum: i64 = inputs.iter().filter_map(|i| i.value.value()).fold(0i64, |a, b| a.wrapping_add(b));
-                        OutputValue::Value(sum)
-                    } else {
-                        OutputValue::Value(self.mode.strip_prefix("const ").and_then(|n| n.parse().ok()).unwrap_or(0))
-                    };
-                out.push(OutputEntry { signal: s, value });
+        Ok(self.answer(inputs))
+    }
+    fn write_input(&mut self, inputs: &[InputEntry<'_>]) -> Result<(), DrvErr> {
+        if self.cfg.override_write {
+            self.calls += 1;
+            self.log.push(format!("W[{}]", fmt_inputs(inputs)));
+            if self.cfg.failat == Some(self.calls) {
+                return Err(DrvErr(self.calls));
             }
+            Ok(())
+        } else {
+            self.write_input_and_read_output(inputs).map(|_| ())
         }
-        Ok(out)
     }
 }
 
-fn esc(s: &str) -> String { s.replace('\\', "\\\\").replace('"', "\\\"").replace('\n', "\\n") }
+fn esc(s: &str) -> String {
+    s.replace('\\', "\\\\").replace('"', "\\\"").replace('\n', "\\n")
+}
+fn jlist(v: &[String]) -> String {
+    format!("[{}]", v.iter().map(|r| format!("\"{}\"", esc(r))).collect::<Vec<_>>().join(","))
+}
 
 fn main() {
     let path = std::env::args().nth(1).expect("scenario file");
     let text = std::fs::read_to_string(&path).expect("read scenario");
     let mut signals = vec![];
-    let mut mode = "const 0".to_string();
+    let mut cfg = Cfg { value: "const 0".into(), layout: "fwd".into(), ..Default::default() };
     let mut maxrows = 64usize;
+    let mut want_vars = false;
     let mut program = String::new();
     let mut in_prog = false;
     for line in text.split_inclusive('\n') {
-        if in_prog { program.push_str(line); continue; }
+        if in_prog {
+            program.push_str(line);
+            continue;
+        }
         let l = line.trim();
         let w: Vec<&str> = l.split_whitespace().collect();
-        if w.is_empty() { continue; }
+        if w.is_empty() {
+            continue;
+        }
         match w[0] {
             "signal" => {
                 let bits: usize = w[3].parse().unwrap();
-                let def = if w.len() > 4 { if w[4] == "Z" { InputValue::Z } else { InputValue::Value(w[4].parse().unwrap()) } } else { InputValue::Value(0) };
+                let def = if w.len() > 4 {
+                    if w[4] == "Z" { InputValue::Z } else { InputValue::Value(w[4].parse().unwrap()) }
+                } else {
+                    InputValue::Value(0)
+                };
                 signals.push(match w[1] {
                     "in" => Signal { name: w[2].into(), bits, typ: SignalType::Input { default: def } },
                     "out" => Signal { name: w[2].into(), bits, typ: SignalType::Output },
                     _ => Signal { name: w[2].into(), bits, typ: SignalType::Bidirectional { default: def } },
                 });
             }
-            "driver" => mode = w[1..].join(" "),
+            "driver" => match w.get(1).copied() {
+                Some("value") => cfg.value = w[2..].join(" "),
+                Some("layout") => cfg.layout = w[2..].join(" "),
+                Some("deviate") => cfg.deviate = Some((w[2].to_string(), w[3].parse().unwrap())),
+                Some("failat") => cfg.failat = Some(w[2].parse().unwrap()),
+                Some("override_write") => cfg.override_write = true,
+                // old single-line forms
+                Some("none") => cfg.layout = "none".into(),
+                Some("dupdrop") => cfg.deviate = Some(("dupfirst".into(), 1)),
+                Some("const") | Some("echo") | Some("z") | Some("x") | Some("idx") => cfg.value = w[1..].join(" "),
+                _ => {}
+            },
             "maxrows" => maxrows = w[1].parse().unwrap(),
+            "vars" => want_vars = true,
             "program" => in_prog = true,
             _ => {}
         }
     }
     std::panic::set_hook(Box::new(|_| {}));
-    let mut o = String::from("{");
     let parsed = catch_unwind(|| program.parse::<ParsedTestCase>());
     let parsed = match parsed {
-        Err(p) => { println!("{{\"stage\":\"parse\",\"outcome\":\"panic\",\"message\":\"{}\"}}", esc(&panic_msg(p))); return; }
-        Ok(Err(e)) => { println!("{{\"stage\":\"parse\",\"outcome\":\"error\",\"message\":\"{}\",\"spans\":\"{:?}\"}}", esc(&format!("{:?}", e)), e.at); return; }
+        Err(p) => {
+            println!("{{\"stage\":\"parse\",\"outcome\":\"panic\",\"message\":\"{}\"}}", esc(&panic_msg(p)));
+            return;
+        }
+        Ok(Err(e)) => {
+            let inb = e.at.iter().all(|s| {
+                s.start <= s.end && s.end <= program.len() && program.is_char_boundary(s.start) && program.is_char_boundary(s.end)
+            });
+            println!(
+                "{{\"stage\":\"parse\",\"outcome\":\"error\",\"message\":\"{}\",\"spans\":\"{:?}\",\"spans_valid\":{}}}",
+                esc(&format!("{:?}", e)),
+                e.at,
+                inb
+            );
+            return;
+        }
         Ok(Ok(p)) => p,
     };
     let sigs = signals.clone();
     let tc = match catch_unwind(AssertUnwindSafe(|| parsed.with_signals(sigs))) {
-        Err(p) => { println!("{{\"stage\":\"bind\",\"outcome\":\"panic\",\"message\":\"{}\"}}", esc(&panic_msg(p))); return; }
-        Ok(Err(e)) => { println!("{{\"stage\":\"bind\",\"outcome\":\"error\",\"message\":\"{}\"}}", esc(&format!("{:?}", e))); return; }
+        Err(p) => {
+            println!("{{\"stage\":\"bind\",\"outcome\":\"panic\",\"message\":\"{}\"}}", esc(&panic_msg(p)));
+            return;
+        }
+        Ok(Err(e)) => {
+            println!("{{\"stage\":\"bind\",\"outcome\":\"error\",\"message\":\"{}\"}}", esc(&format!("{:?}", e)));
+            return;
+        }
         Ok(Ok(t)) => t,
     };
-    o.push_str(&format!("\"signals\":\"{}\",", esc(&tc.signals.iter().map(|s| s.name.clone()).collect::<Vec<_>>().join(" "))));
-    let mut drv = Drv { signals: &tc.signals, mode, calls: 0 };
+    let signames = tc.signals.iter().map(|s| s.name.clone()).collect::<Vec<_>>().join(" ");
+    let mut drv = Drv { signals: &tc.signals, cfg, calls: 0, log: vec![] };
     let res = catch_unwind(AssertUnwindSafe(|| {
         let mut rows = vec![];
-        let it = match tc.try_iter(&mut drv) { Ok(it) => it, Err(e) => return (rows, Some(format!("construct: {:?}", e))) };
-        for (n, row) in it.enumerate() {
-            if n >= maxrows { rows.push("...".to_string()); break; }
-            match row {
-                Ok(r) => rows.push(format!("line {} in [{}] out [{}]", r.line,
-                    r.inputs.iter().map(|i| format!("{}={}", i.signal.name, i.value)).collect::<Vec<_>>().join(" "),
-                    r.outputs.iter().map(|x| format!("{}={}/{}", x.signal.name, x.output, x.expected)).collect::<Vec<_>>().join(" "))),
-                Err(e) => { return (rows, Some(format!("row error: {:?}", e))); }
+        let mut vars = vec![];
+        let mut it = match tc.try_iter(&mut drv) {
+            Ok(it) => it,
+            Err(e) => return (rows, vars, Some(format!("construct: {:?}", e))),
+        };
+        let mut n = 0;
+        loop {
+            if n >= maxrows {
+                rows.push("...".to_string());
+                break;
             }
+            match it.next() {
+                None => break,
+                Some(Ok(r)) => {
+                    rows.push(format!(
+                        "line {} in [{}] out [{}]",
+                        r.line,
+                        fmt_inputs(&r.inputs),
+                        r.outputs.iter().map(|x| format!("{}={}/{}", x.signal.name, x.output, x.expected)).collect::<Vec<_>>().join(" ")
+                    ));
+                    if want_vars {
+                        let mut v: Vec<(String, i64)> = it.vars().into_iter().collect();
+                        v.sort();
+                        vars.push(v.iter().map(|(k, x)| format!("{k}={x}")).collect::<Vec<_>>().join(" "));
+                    }
+                }
+                Some(Err(e)) => return (rows, vars, Some(format!("row error: {:?}", e))),
+            }
+            n += 1;
         }
-        (rows, None)
+        (rows, vars, None)
     }));
     match res {
-        Err(p) => println!("{{\"stage\":\"run\",\"outcome\":\"panic\",\"message\":\"{}\"}}", esc(&panic_msg(p))),
-        Ok((rows, err)) => {
-            o.push_str("\"stage\":\"run\",\"outcome\":");
+        Err(p) => println!(
+            "{{\"stage\":\"run\",\"outcome\":\"panic\",\"message\":\"{}\",\"calls\":{}}}",
+            esc(&panic_msg(p)),
+            jlist(&drv.log)
+        ),
+        Ok((rows, vars, err)) => {
+            let mut o = format!("{{\"signals\":\"{}\",\"stage\":\"run\",\"outcome\":", esc(&signames));
             o.push_str(if err.is_some() { "\"error-item\"" } else { "\"ok\"" });
-            o.push_str(&format!(",\"nrows\":{},\"rows\":[{}]", rows.len(), rows.iter().map(|r| format!("\"{}\"", esc(r))).collect::<Vec<_>>().join(",")));
-            if let Some(e) = err { o.push_str(&format!(",\"message\":\"{}\"", esc(&e))); }
+            o.push_str(&format!(",\"nrows\":{},\"rows\":{},\"calls\":{}", rows.len(), jlist(&rows), jlist(&drv.log)));
+            if want_vars {
+                o.push_str(&format!(",\"vars\":{}", jlist(&vars)));
+            }
+            if let Some(e) = err {
+                o.push_str(&format!(",\"message\":\"{}\"", esc(&e)));
+            }
             o.push('}');
             println!("{}", o);
         }
@@ -126,5 +274,11 @@ fn main() {
 }
 
 fn panic_msg(p: Box<dyn std::any::Any + Send>) -> String {
-    if let Some(s) = p.downcast_ref::<&str>() { s.to_string() } else if let Some(s) = p.downcast_ref::<String>() { s.clone() } else { "panic".into() }
+    if let Some(s) = p.downcast_ref::<&str>() {
+        s.to_string()
+    } else if let Some(s) = p.downcast_ref::<String>() {
+        s.clone()
+    } else {
+        "panic".into()
+    }
 }
